@@ -119,7 +119,12 @@ def check(run):
     for i, h in enumerate(hs):
         scns.append(script(h, {"c1": 1, "c2": 2} if i % 2 == 0 else {"c1": 2, "c2": 1}))
     if not thorough:
-        scns = scns[:: max(1, len(scns) // 150)]
+        # scripts in which a QoS 2 handshake times out and its PUBREL arrives afterwards are few and always run; the rest is sampled
+        def late_rel(h):
+            sw = [i for i, o in enumerate(h) if o["op"] == "sweep"]
+            return bool(sw) and any(o["op"] == "rel" for o in h[sw[0]:])
+        must = [script(h, {"c1": 1, "c2": 2}) for h in hs if late_rel(h)]
+        scns = scns[:: max(1, len(scns) // 150)] + must
     nshort = len(scns)
     if not thorough:
         scns.append(long_run(rng, 640))
